@@ -37,7 +37,8 @@ def cases(tier, seed):
     rng = gen.sub_rng(seed, ID)
     fixed = ["MDVFMKGLSKAKEGVVAAAEKTKQGVAEAAGKTKEGVLYVGSKTKEGVVHGVATVAEKTKEQVTNVGGAVVTGVTAVAQKTVEGAGSIAAATGFVKKDQLGKNEEGAPQEGILEDMPVDPDNEAYEMPSEEGYQDYEPEA",
              "PPPPPEEEEEGGGGGKKKKKWWWWW", "W", "P", "GSGSGS", "EKEKEKEKPPPPGGGGWWHH", "EQQQGNQDR", "KQQQQQQQE", "GSGSGSGSGSGSGSGSGSGSGSKE",
-             "QQQQQQQQQQQQQQQQQQQQQQQPQQQQQQQQQQQQQQQQQQQQQQQQQQQQQQQQQQQQQQQQQQQQQQQQQQQQQQQQQD", "EEQGGQQE", "PGGGGGGP", "DGSGSGSGR", "KKGGGGGK"]
+             "QQQQQQQQQQQQQQQQQQQQQQQPQQQQQQQQQQQQQQQQQQQQQQQQQQQQQQQQQQQQQQQQQQQQQQQQQQQQQQQQQD",
+             "GSQN" * 10 + "EKDRPEKDR" + "GSQNA" * 9, "EKDRP" * 17 + "GSQ" + "EDKR" + "ASTN" + "KD", "Q" * 30 + "PEK" + "S" * 30 + "DRP" + "N" * 28 + "KE", "EEQGGQQE", "PGGGGGGP", "DGSGSGSGR", "KKGGGGGK"]
     yield {"sweep": 330 if tier == "quick" else 1200, "s": "", "o": 5}
     for i in range(NSEQ[tier]):
         s = fixed[i] if i < len(fixed) else gen.rand_seq(rng, hi=HI[tier] if i % 3 == 0 else 40)
@@ -222,12 +223,15 @@ def judge(case, rep, S):
         if not ref_agree(rep, v1, recode(seq, set(g1))):
             rep.viol("kappa_x_reference", "kappa_X(%s)=%r on %s disagrees with the reference kappa of the two-class recoding" % (g1, v1, seq))
     # --- invalid members are rejected (in group 1, in group 2, anywhere in the list)
-    for _ in range(3):
+    for rnd_ in range(3):
         bad = rng.choice(BAD_MEMBERS)
         good = rng.sample(list(M.AA), rng.randint(0, 5))
+        if rnd_ == 0 and rng.random() < 0.5:
+            good = list(M.AA)                  # every amino acid is there already; the bad member comes last (or first)
+            rng.shuffle(good)
         grp = list(good)
-        grp.insert(rng.randint(0, len(grp)), bad)
-        other = rng.sample([x for x in M.AA if x not in good], 3)
+        grp.insert(rng.choice([0, len(grp), len(grp), rng.randint(0, len(grp))]), bad)
+        other = rng.sample([x for x in M.AA if x not in good] or list(M.AA), 3)
         for which in (1, 2):
             try:
                 if which == 1:
